@@ -72,12 +72,18 @@ def check_lfda(est, X, y, k, dim, etype):
   else:
     if not np.allclose(L.dot(L.T), np.eye(dim), atol=1e-8):
       return 'orthonormalized embedding: rows are not orthonormal'
-    if gaps_ok:
-      Q, _ = np.linalg.qr(V[:, :dim])
+    # orthonormalisation of the eigenvectors taken in decreasing order of eigenvalue: for every j the first j
+    # rows span the j leading generalised eigenvectors (decided wherever the j-th and (j+1)-th eigenvalues differ)
+    for j in range(1, dim + 1):
+      gap = j == len(lam) or abs(lam[j - 1] - lam[j]) > 1e-6 * (abs(lam[0]) + 1e-300)
+      if not gap:
+        continue
+      Q, _ = np.linalg.qr(V[:, :j])
       Pref = Q.dot(Q.T)
-      Pimp = L.T.dot(L)
+      Pimp = L[:j].T.dot(L[:j])
       if np.abs(Pref - Pimp).max() > 1e-6:
-        return 'orthonormalized embedding: rows do not span the leading generalised eigenvectors'
+        return ('orthonormalized embedding: rows do not span the leading generalised eigenvectors' if j == dim else
+                'orthonormalized embedding: the first %d rows do not span the %d leading generalised eigenvectors' % (j, j))
   return None
 
 
